@@ -39,11 +39,12 @@ def gen(rng, tier):
             ev.append(['dup', rng.choice([1, 1, 2, 2, 3, 3, 4, 6])])
         else:
             ev.append(['wait', rng.choice([0.5, 2.0, 5.0, 20.0])])
+    t0 = rng.choice([-1000.0, -50.0, -0.125]) if rng.random() < 0.1 else 0      # a clock that starts below zero
     sync = None
     if rng.random() < 0.12:
         # a new ACK arrives in the very instant a retransmission timer is due and is handled ahead of it
         sync = [rng.randrange(4), rng.choice([1, 1, 2, 5])]
-    return {'cc': cc, 'segments': 2000 if long_ca else rng.choice([400, 400, 3, 8]), 'sync_ack': sync,
+    return {'cc': cc, 't0': t0, 'segments': 2000 if long_ca else rng.choice([400, 400, 3, 8]), 'sync_ack': sync,
             'pace': rng.choice([None, None, 0.5, 1.0, 2.0]),   # application-limited (paced) flows
             'msg': rng.choice([MSS, MSS, 200, 700, 1000]),     # paced flows: bytes handed over per arrival
             'tail': rng.choice([0, 0, 0, 200, 464]),           # flow size need not be a multiple of the MSS
@@ -96,13 +97,13 @@ def run(case):
 
 
 def execute(case, at):
-    w = NetWorld()
+    w = NetWorld(case.get('t0', 0))
     env = w.env
     peer = Peer(w)
     hold = {}
     if at is not None:
         def early():
-            yield env.timeout(at[0])
+            yield env.timeout(at[0] - env.now)
             hold['fire']()
         env.process(early())
     sender, flow = make_sender(w, case, peer)
@@ -170,14 +171,15 @@ class RefCubic:
         self.cwnd_cnt = 0
 
     def reset(self):
-        self.w_last_max = self.epoch_start = self.origin = self.d_min = self.w_tcp = self.k = self.ack_cnt = 0
+        self.w_last_max = self.origin = self.d_min = self.w_tcp = self.k = self.ack_cnt = 0
+        self.epoch_start = None           # no epoch yet (whatever the clock shows: it may be negative or zero)
 
     def sample(self, rtt):
         self.d_min = min(self.d_min, rtt) if self.d_min > 0 else rtt
 
     def avoid(self, cwnd, now, mss):
         self.ack_cnt += 1
-        if self.epoch_start <= 0:
+        if self.epoch_start is None:
             self.epoch_start = now
             if cwnd < self.w_last_max:
                 self.k = ((self.w_last_max - cwnd) / self.C) ** (1.0 / 3)
